@@ -26,7 +26,7 @@ func init() {
 		Explain: "Decides structural necessary conditions of the laws: (V) in URLEscape every loop cycle that leaves bytes in place (the copy mark does not move) advances by a constant number of bytes, and each of those bytes has been tested on that path by predicates that — evaluated here for all 256 byte values from the source's own tables and predicate bodies — admit only unreserved ASCII, '%' followed by two hex digits, or bytes that cannot start a UTF-8 sequence; every other cycle moves the copy mark and writes only the pending verbatim range, constant escapes or url.QueryEscape output: so the output has no space, control, quote or angle byte, every kept '%' is a valid triple, and valid UTF-8 comes out as ASCII; (X) Extend/ExtendString store only exclusively owned bucket slices into the derived filter, and Add appends only to a bucket of its own receiver; (T) the pass-through table, the UTF-8 length table and the HTML escape table have exactly the required classes and are never written; (R) every code point decoded from a numeric reference passes the validator (0 and invalid code points become U+FFFD) before it is encoded; (W,B) no util function writes into its argument (= C12-W/B); (E) EscapeHTML replaces every byte that has a table entry (= C03-E). Not decided: idempotence of URLEscape, decoding back to the input, UTF-8 validity of resolver output in general, case folding and whitespace collapsing, set semantics of BytesFilter beyond aliasing.",
 		Trusted: []string{"url.QueryEscape emits only unreserved ASCII, '+' and %XX", "utf8.ValidRune"},
 		Assumes: []string{"none beyond Go semantics"},
-		Rules: []func(*World, *Report){ruleVerbatimBytesSafe, ruleFilterNoAliasing, ruleFilterDerivationComplete, ruleWideGuards, ruleUtilTables, ruleEscapeTable, ruleValidRune,
+		Rules: []func(*World, *Report){ruleVerbatimBytesSafe, ruleFilterNoAliasing, ruleFilterDerivationComplete, ruleWideGuards, ruleLabelNormalisation, ruleUtilTables, ruleEscapeTable, ruleValidRune,
 			ruleByteWriteSites, ruleCopyOnWrite, ruleSanitiserLoops},
 	})
 }
@@ -1006,4 +1006,133 @@ func ruleFilterDerivationComplete(w *World, r *Report) {
 		}
 	}
 	r.Expect("deriving methods of BytesFilter implementations", nDeriv, 2)
+}
+
+// ---- C19-L: the label normaliser's pipeline ---------------------------------------------------------------------
+
+type normFacts struct{ ltrim, rtrim, folded, collapsed bool }
+
+func (a normFacts) meet(b normFacts) normFacts {
+	return normFacts{a.ltrim && b.ltrim, a.rtrim && b.rtrim, a.folded && b.folded, a.collapsed && b.collapsed}
+}
+
+// ruleLabelNormalisation: what is known, step by step, about the value util.ToLinkReference returns.
+func ruleLabelNormalisation(w *World, r *Report) {
+	r.Rule("C19-L", "Typestate over the data path from the parameter of util.ToLinkReference to its result, with a table of what each step establishes and preserves: TrimLeftSpace / TrimRightSpace (and bytes.TrimSpace, bytes.TrimLeft/Right/Trim with the whole ASCII whitespace set) establish 'no whitespace at that end'; DoFullUnicodeCaseFolding establishes 'case-folded'; ReplaceSpaces(·, ' ') establishes 'inner runs collapsed' and preserves trimmed ends but does not establish them (it returns its input unchanged when the only run is a trailing one); conversions preserve everything; any other step forgets everything. The result must be trimmed at both ends, case-folded and collapsed — otherwise labels that differ only in surrounding whitespace, case, or inner runs are not identified.")
+	fn := w.PkgFunc("util", "ToLinkReference")
+	if fn == nil || len(fn.Params) != 1 {
+		r.Unknown("util.ToLinkReference", "", "not found")
+		return
+	}
+	memo := map[ssa.Value]normFacts{}
+	var eval func(v ssa.Value, depth int) normFacts
+	eval = func(v ssa.Value, depth int) normFacts {
+		if f, ok := memo[v]; ok {
+			return f
+		}
+		if depth > 32 {
+			return normFacts{}
+		}
+		memo[v] = normFacts{} // cycles: pessimistic
+		var out normFacts
+		switch x := v.(type) {
+		case *ssa.Parameter:
+			out = normFacts{}
+		case *ssa.Convert:
+			out = eval(x.X, depth+1)
+		case *ssa.ChangeType:
+			out = eval(x.X, depth+1)
+		case *ssa.Phi:
+			for i, e := range x.Edges {
+				f := eval(e, depth+1)
+				if i == 0 {
+					out = f
+				} else {
+					out = out.meet(f)
+				}
+			}
+		case *ssa.Call:
+			cal := x.Common().StaticCallee()
+			if cal == nil || len(x.Common().Args) == 0 {
+				break
+			}
+			in := eval(x.Common().Args[0], depth+1)
+			allSpace := func(arg ssa.Value) bool { // cutset contains every ASCII whitespace byte util.IsSpace accepts
+				s, ok := constString(arg)
+				if !ok {
+					return false
+				}
+				for _, c := range []byte{' ', '\t', '\n', '\r', '\f', '\v'} {
+					if !strings.ContainsRune(s, rune(c)) {
+						return false
+					}
+				}
+				return true
+			}
+			switch cal.String() {
+			case modPath + "/util.TrimLeftSpace":
+				out, out.ltrim = in, true
+			case modPath + "/util.TrimRightSpace":
+				out, out.rtrim = in, true
+			case "bytes.TrimSpace", "strings.TrimSpace":
+				out = in
+				out.ltrim, out.rtrim = true, true
+			case "bytes.Trim", "strings.Trim":
+				out = in
+				if allSpace(x.Common().Args[1]) {
+					out.ltrim, out.rtrim = true, true
+				}
+			case "bytes.TrimLeft", "strings.TrimLeft":
+				out = in
+				if allSpace(x.Common().Args[1]) {
+					out.ltrim = true
+				}
+			case "bytes.TrimRight", "strings.TrimRight":
+				out = in
+				if allSpace(x.Common().Args[1]) {
+					out.rtrim = true
+				}
+			case modPath + "/util.DoFullUnicodeCaseFolding":
+				out, out.folded = in, true
+			case modPath + "/util.ReplaceSpaces":
+				out = in
+				if c, ok := constInt(x.Common().Args[1]); ok && c == ' ' {
+					out.collapsed = true
+				}
+			case modPath + "/util.BytesToReadOnlyString", modPath + "/util.StringToReadOnlyBytes":
+				out = in
+			}
+		}
+		memo[v] = out
+		return out
+	}
+	n := 0
+	for _, b := range fn.Blocks {
+		ret, ok := b.Instrs[len(b.Instrs)-1].(*ssa.Return)
+		if !ok || len(ret.Results) != 1 {
+			continue
+		}
+		n++
+		f := eval(ret.Results[0], 0)
+		key := fmt.Sprintf("util.ToLinkReference: return #%d", n)
+		var missing []string
+		if !f.ltrim {
+			missing = append(missing, "leading whitespace removed")
+		}
+		if !f.rtrim {
+			missing = append(missing, "trailing whitespace removed")
+		}
+		if !f.folded {
+			missing = append(missing, "Unicode case folding")
+		}
+		if !f.collapsed {
+			missing = append(missing, "inner whitespace runs collapsed to one space")
+		}
+		if len(missing) == 0 {
+			r.OK(key, w.InstrPos(ret), "trimmed at both ends, case-folded, collapsed")
+		} else {
+			r.Bad(key, w.InstrPos(ret), "the returned label is not known to be normalised: missing "+strings.Join(missing, "; ")+" (note: ReplaceSpaces leaves a trailing whitespace run untouched when it rewrote nothing before it, so trimming afterwards with a narrower set does not make up for it)")
+		}
+	}
+	r.Expect("returns of util.ToLinkReference", n, 1)
 }
